@@ -83,6 +83,22 @@ class MeetV:
         self.a, self.b = a, b
 
 
+class UnionV:
+    """the union of two key sets (only its size matters)"""
+    __slots__ = ('a', 'b')
+
+    def __init__(self, a, b):
+        self.a, self.b = a, b
+
+
+class CountV:
+    """a number: the sum of the sizes of some collections   len(A) + len(X)"""
+    __slots__ = ('parts',)
+
+    def __init__(self, parts):
+        self.parts = list(parts)
+
+
 UNKNOWN = Coll('unknown')
 
 
@@ -133,7 +149,23 @@ class IdCheck:
             return DictV('?', Coll('empty'))
         if isinstance(e, ast.BinOp) and isinstance(e.op, ast.Add):
             a, b = self.ev(e.left, env, func), self.ev(e.right, env, func)
+            if isinstance(a, CountV) and isinstance(b, CountV):
+                return CountV(a.parts + b.parts)
             return self._concat(a, b)
+        if isinstance(e, ast.BinOp) and isinstance(e.op, ast.Add):
+            a, b = self._ev(e.left, env, func), self._ev(e.right, env, func)
+            if isinstance(a, CountV) and isinstance(b, CountV):
+                return CountV(a.parts + b.parts)
+        if isinstance(e, ast.BinOp) and isinstance(e.op, ast.BitOr):
+            a, b = self.ev(e.left, env, func), self.ev(e.right, env, func)
+            if isinstance(a, Coll) and isinstance(b, Coll) and a.known and b.known and a.view == b.view != 'task':
+                return UnionV(a, b)
+            return unk(src(e)[:40])
+        if isinstance(e, ast.Call) and isinstance(e.func, ast.Name) and e.func.id == 'len' and len(e.args) == 1 and not e.keywords:
+            x = self._as_coll(self.ev(e.args[0], env, func))
+            if isinstance(x, (MeetV, UnionV)) or isinstance(x, Coll) and x.known:
+                return CountV([x])
+            return unk(src(e)[:40])
         if isinstance(e, ast.BinOp) and isinstance(e.op, ast.BitAnd):
             a, b = self.ev(e.left, env, func), self.ev(e.right, env, func)
             if isinstance(a, Coll) and isinstance(b, Coll) and a.known and b.known:
@@ -229,6 +261,10 @@ class IdCheck:
                 b = self.ev(e.args[0], env, func)
                 if isinstance(b, Coll) and b.known:
                     return MeetV(recv, b)
+            if isinstance(recv, Coll) and recv.known and fn.attr == 'union' and len(e.args) == 1 and recv.view != 'task' and recv.src != 'empty':
+                b = self.ev(e.args[0], env, func)
+                if isinstance(b, Coll) and b.known and b.view == recv.view and b.src != 'empty':
+                    return UnionV(recv, b)
             if isinstance(recv, Coll) and fn.attr in ('union',) and len(e.args) == 1:
                 return self._concat(recv, self.ev(e.args[0], env, func))
             m = match("chain.from_iterable($g)", e) or match("itertools.chain.from_iterable($g)", e)
@@ -395,7 +431,12 @@ class IdCheck:
             c = st.value
             if isinstance(c.func, ast.Attribute) and isinstance(c.func.value, ast.Name) and c.func.attr in ('extend', 'update') and len(c.args) == 1:
                 n = c.func.value.id
-                env[n] = self._concat(env.get(n, unk(n)), self.ev(c.args[0], env, func))
+                a0, b0 = env.get(n, unk(n)), self.ev(c.args[0], env, func)
+                if c.func.attr == 'update' and isinstance(a0, Coll) and isinstance(b0, Coll) and a0.known and b0.known and \
+                        a0.src != 'empty' and b0.src != 'empty' and a0.kind == 'set' and a0.view == b0.view != 'task':
+                    env[n] = UnionV(a0, b0)
+                    return
+                env[n] = self._concat(a0, b0)
                 return
             if isinstance(c.func, ast.Attribute) and c.func.attr in ('debug', 'info', 'warning') or (isinstance(c.func, ast.Name) and c.func.id == 'print'):
                 return
@@ -523,8 +564,40 @@ class IdCheck:
         self.atoms[name] = (kind,) + tuple(colls)
         return T.F_atom(name)
 
+    def _count_of(self, e, env, func):
+        v = self._ev(e, env, func) if isinstance(e, (ast.Name, ast.BinOp, ast.Call)) else None
+        return v if isinstance(v, CountV) else None
+
+    def _union_count(self, l, op, r, env, func):
+        """len(A | ids(X)) <op> len(A) + len(X):  the union is smaller than the sum exactly when two tasks of X share an id or an id of
+        X is already in A"""
+        cl, cr = self._count_of(l, env, func), self._count_of(r, env, func)
+        if cl is None or cr is None:
+            return None
+        o = type(op)
+        if len(cl.parts) == 2 and len(cr.parts) == 1:
+            cl, cr, o = cr, cl, {ast.Lt: ast.Gt, ast.Gt: ast.Lt, ast.LtE: ast.GtE, ast.GtE: ast.LtE}.get(o, o)
+        if not (len(cl.parts) == 1 and isinstance(cl.parts[0], UnionV) and len(cr.parts) == 2):
+            return None
+        u = cl.parts[0]
+        for A, B in ((u.a, u.b), (u.b, u.a)):
+            for pa, px in ((cr.parts[0], cr.parts[1]), (cr.parts[1], cr.parts[0])):
+                if isinstance(pa, Coll) and isinstance(px, Coll) and pa.kind == 'set' and pa.view == A.view and pa.members() == A.members() and \
+                        A.kind == 'set' and px.kind == 'list' and px.view in ('task', B.view) and px.members() == B.members() and B.view == 'taskid':
+                    f = ('or', [self._dup(px if px.view == 'task' else px), self._inter(A, B) or self._opaque(l)])
+                    if o in (ast.NotEq, ast.Lt):
+                        return f
+                    if o in (ast.Eq, ast.GtE):
+                        return T.F_not(f)
+        return None
+
     def _len_of(self, e, env, func):
         m = match("len($x)", e)
+        if m is None and isinstance(e, ast.Name):
+            v = env.get(e.id)
+            if isinstance(v, CountV) and len(v.parts) == 1:
+                x = v.parts[0]
+                return x if isinstance(x, MeetV) or isinstance(x, Coll) and x.known else None
         if m is None:
             return None
         x = self._as_coll(self.ev(m['x'], env, func))
@@ -558,6 +631,9 @@ class IdCheck:
             return self.boolf(m['x'], env, func)
         if isinstance(e, ast.Compare) and len(e.ops) == 1:
             l, op, r = e.left, e.ops[0], e.comparators[0]
+            uc = self._union_count(l, op, r, env, func)
+            if uc is not None:
+                return uc
             la, ra = self._len_of(l, env, func), self._len_of(r, env, func)
             num = lambda z: z.value if isinstance(z, ast.Constant) and isinstance(z.value, int) and not isinstance(z.value, bool) else None
             # emptiness:  len(X) == 0 | != 0 | > 0 | < 1 | >= 1   (and mirrored)
@@ -669,18 +745,47 @@ class IdCheck:
             self._stmt(st, env, func)
         return ('const', False)
 
-    def _search_loop(self, st: ast.For, env, func):
+    def _search_loop(self, st: ast.For, env, func, over=None):
         """for t in X: if C(t): return True [; seen.add(t.id)]   ->  formula of `any(C(t) for t in X)`"""
-        if st.orelse or not isinstance(st.target, ast.Name) or not st.body or not isinstance(st.body[0], ast.If):
+        if st.orelse or not isinstance(st.target, ast.Name) or not st.body:
+            return None
+        if len(st.body) == 1 and isinstance(st.body[0], ast.For) and isinstance(st.body[0].target, ast.Name) and not st.body[0].orelse:
+            # for ch in X: for t in _collect_subtree(ch): if ..: return True   ==   a search over the concatenated subtrees
+            x0 = self.ev(st.iter, env, func)
+            if isinstance(x0, Coll) and x0.known and x0.view == 'task':
+                el0 = TaskV('elem', x0)
+                env0 = dict(env, **{st.target.id: el0})
+                inner = self.ev(st.body[0].iter, env0, func)
+                if isinstance(inner, Coll) and inner.src == 'sub_elem' and inner.base is x0:
+                    flat = self._flat(x0)
+                    if flat is not None:
+                        return self._search_loop(st.body[0], dict(env0, **{'@flat': flat}), func, over=flat)
+            return None
+        if not isinstance(st.body[0], ast.If):
             return None
         iff = st.body[0]
         if iff.orelse or len(iff.body) != 1 or not isinstance(iff.body[0], ast.Return) or iff.body[0].value is None:
             return None
-        x = self.ev(st.iter, env, func)
+        x = over if over is not None else self.ev(st.iter, env, func)
         if not (isinstance(x, Coll) and x.known):
             return None
         el = TaskV('elem', x) if x.view == 'task' else KeyV(x.view, TaskV('elem', x))
         env2 = dict(env, **{st.target.id: el})
+        # `if <filters on t> and <key> in <set>`: the other conjuncts restrict the tasks that are searched
+        conj = facts.split_conj(iff.test, True)
+        memb = [(a, q) for a, q in conj if q and match("$k in $s", a) is not None and isinstance(a.ops[0], ast.In)]
+        if len(conj) > 1 and len(memb) >= 1 and isinstance(el, TaskV):
+            pick = memb[-1]
+            fs = set(x.filters)
+            for a, q in conj:
+                if a is pick[0]:
+                    continue
+                fs.add(self._filter(a if q else ast.UnaryOp(op=ast.Not(), operand=a), env2, func, el))
+            x = x.but(filters=frozenset(fs))
+            el2 = TaskV('elem', x)
+            env2 = dict(env, **{st.target.id: el2})
+            el = el2
+            iff = ast.If(test=pick[0], body=iff.body, orelse=[])
         rv = iff.body[0].value
         if not (isinstance(rv, ast.Constant) and rv.value is True):
             # `return t.id` / `return t`: the hit itself is handed back and its TRUTH VALUE is what the callers test
@@ -850,8 +955,20 @@ def check_collect_subtree(ctx, o, f):
     from sa.flow import Expander
     prog = ctx.prog
     p = f.params[0]
+    # `return list(_iter_subtree(task))`: the walk lives in a generator / helper of one parameter
+    rets = [r for r in walk_no_nested(f.node) if isinstance(r, ast.Return) and r.value is not None]
+    if len(rets) == 1 and len(f.body) <= 2:
+        v = rets[0].value
+        m = match("list($c)", v) or match("[$x for $x in $c]", v)
+        c = m['c'] if m is not None else v
+        if isinstance(c, ast.Call) and isinstance(c.func, ast.Name) and c.func.id != f.name and len(c.args) == 1 and \
+                isinstance(c.args[0], ast.Name) and c.args[0].id == p:
+            tg = [t for t in ctx.typer.resolve_name_call(c.func.id, f) if t.kind == 'function']
+            if len(tg) == 1 and len(tg[0].params) == 1:
+                return check_collect_subtree(ctx, o, tg[0])
     ex = Expander(prog, f, ctx.typer, inline=False)
-    includes_self = any(isinstance(n, ast.List) and any(isinstance(e, ast.Name) and e.id == p for e in n.elts) for n in ast.walk(f.node)) or \
+    includes_self = any(isinstance(n, ast.Yield) and isinstance(n.value, ast.Name) and n.value.id == p and
+                        not cfg_of(f).conditions(cfg_of(f).node_containing(n)) for n in walk_no_nested(f.node)) or any(isinstance(n, ast.List) and any(isinstance(e, ast.Name) and e.id == p for e in n.elts) for n in ast.walk(f.node)) or \
         any(match(f"$l.append({p})", n) for n in ast.walk(f.node))
     rec = [c for c in facts.calls_named(f, f.name)]
     covers = None
@@ -957,6 +1074,48 @@ def _rename(f, ren):
     if k in ('and', 'or'):
         return (k, [_rename(x, ren) for x in f[1]])
     return f
+
+
+def worklist_shape(f, p, wl):
+    """`q = [p]` (or the children of p); `while q: cur = q.pop..(); ...; q.extend(<children of cur>)`  ->
+    dict(q, cur, starts ('self' | 'children' | None), push ('all' | 'conditional' | 'none' | 'unknown'), push_stmt) or None"""
+    from sa.flow import flow_of
+    q = wl.test.id if isinstance(wl.test, ast.Name) else None
+    if q is None:
+        m = match("len($q) > 0", wl.test) or match("len($q) != 0", wl.test) or match("len($q)", wl.test)
+        q = m['q'].id if m is not None and isinstance(m['q'], ast.Name) else None
+    if q is None:
+        return None
+    fl = flow_of(f)
+    inits = [d for d in fl.defs_of(q) if d.kind == 'assign' and not any(x is d.stmt for x in ast.walk(wl))]
+    if len(inits) != 1:
+        return None
+    iv = inits[0].value
+    m = match("deque($x)", iv) or match("collections.deque($x)", iv)
+    iv = m['x'] if m is not None else iv
+    starts = 'self' if (match(f"[{p}]", iv) or match(f"({p},)", iv)) else ('children' if _children_of(iv, p) is not None else None)
+    cur = None
+    for st in wl.body:
+        if isinstance(st, ast.Assign) and len(st.targets) == 1 and isinstance(st.targets[0], ast.Name) and \
+                (match(f"{q}.pop()", st.value) or match(f"{q}.popleft()", st.value) or match(f"{q}.pop(0)", st.value)):
+            cur = st.targets[0].id
+    if cur is None:
+        return None
+    cfg = cfg_of(f)
+    base = cfg.conditions(cfg.node_of(wl.body[0]))
+    pushes = []
+    for st in wl.body:
+        for x in ast.walk(st):
+            if isinstance(x, ast.Call) and isinstance(x.func, ast.Attribute) and isinstance(x.func.value, ast.Name) and x.func.value.id == q and \
+                    x.func.attr in ('extend', 'extendleft') and len(x.args) == 1 and _children_of(x.args[0], cur) is not None:
+                pushes.append(st)
+            elif isinstance(x, ast.AugAssign) and isinstance(x.target, ast.Name) and x.target.id == q and _children_of(x.value, cur) is not None:
+                pushes.append(st)
+    if not pushes:
+        push = 'unknown' if any(_children_of(x, cur) is not None for st in wl.body for x in ast.walk(st) if isinstance(x, ast.expr)) else 'none'
+        return dict(q=q, cur=cur, starts=starts, push=push, push_stmt=None, base=base)
+    push = 'all' if cfg.conditions(cfg.node_of(pushes[0])) == base else 'conditional'
+    return dict(q=q, cur=cur, starts=starts, push=push, push_stmt=pushes[0], base=base)
 
 
 def _collect_worklist(f, p, wl):
